@@ -269,7 +269,8 @@ def struct_invariants(func):
     return out
 
 
-_PROG = [None]
+from .lin import _ThreadCell
+_PROG = _ThreadCell()
 
 
 def param_nonneg_hyps(func):
